@@ -248,9 +248,10 @@ fn txid(chain: &SimChain, h: &packed::Byte32) -> i64 {
     chain.tx_id_of(h).map(|i| i as i64 + 1).unwrap_or(-1)
 }
 
-pub fn filter_state(client: &Client, chain: &SimChain, names: &[PeerIndex]) -> Value {
+/// The persistent part of the filter / index state: a raw scan of the RocksDB keyspace.
+pub fn store_state(storage: &crate::storage::Storage, chain: &SimChain) -> serde_json::Map<String, Value> {
     let maps = Maps::new(chain);
-    let db = &client.storage.db;
+    let db = &storage.db;
     let mut scripts = Vec::new();
     let mut min_f: i64 = -1;
     let mut mdb = Vec::new();
@@ -340,6 +341,43 @@ pub fn filter_state(client: &Client, chain: &SimChain, names: &[PeerIndex]) -> V
         let _ = txs;
         out
     };
+    let mut m = serde_json::Map::new();
+    m.insert("scripts".into(), json!(scripts));
+    m.insert("minF".into(), json!(min_f));
+    m.insert("mdb".into(), json!(mdb));
+    // final = up to MAX_CHECK_POINT_INDEX; values stored beyond it (a crash between the two writes) are not
+    m.insert("cpFinal".into(), json!(cp_final.iter().take((max_cp + 1).max(0) as usize).cloned().collect::<Vec<_>>()));
+    m.insert("maxCp".into(), json!(max_cp));
+    m.insert("cpStored".into(), json!(cp_final.len()));
+    m.insert("cells".into(), json!(cells));
+    m.insert("hist".into(), json!(hist));
+    m.insert("txs".into(), json!(txs));
+    m.insert("hdrs".into(), json!(hdrs));
+    m.insert("nums".into(), json!(nums));
+    m.insert("meta".into(), json!(meta_keys));
+    m
+}
+
+/// What a storage write hook sees: the persistent state (raw scan), the stored tip, and whether the
+/// matched-blocks lock is held (by the operation that is writing).
+pub fn write_point_state(storage: &crate::storage::Storage, peers: &crate::protocols::Peers, chain: &SimChain) -> (bool, Value) {
+    let mut m = store_state(storage, chain);
+    let (td, tip) = storage.get_last_state();
+    let last_n: Vec<Value> = storage
+        .get_last_n_headers()
+        .into_iter()
+        .map(|(n, h)| json!([n, hid(chain, &h)]))
+        .collect();
+    m.insert("tip".into(), json!(hid(chain, &tip.calc_header_hash())));
+    m.insert("tipTD".into(), json!(small(&td)));
+    m.insert("lastN".into(), json!(last_n));
+    let locked = peers.matched_blocks().try_read().is_err();
+    (locked, Value::Object(m))
+}
+
+pub fn filter_state(client: &Client, chain: &SimChain, names: &[PeerIndex]) -> Value {
+    let maps = Maps::new(chain);
+    let mut st = store_state(&client.storage, chain);
     let dump = client.peers.verif_dump();
     let mmem = match &dump.matched_blocks {
         Some(list) => json!(list
@@ -382,16 +420,12 @@ pub fn filter_state(client: &Client, chain: &SimChain, names: &[PeerIndex]) -> V
             })
             .collect()
     };
-    json!({
-        "scripts": scripts, "minF": min_f, "mdb": mdb, "mmem": mmem,
-        // final = up to MAX_CHECK_POINT_INDEX; values stored beyond it (a crash between the two writes) are not
-        "cpFinal": cp_final.iter().take((max_cp + 1).max(0) as usize).cloned().collect::<Vec<_>>(), "maxCp": max_cp, "cpStored": cp_final.len(),
-        "cells": cells, "hist": hist, "txs": txs, "hdrs": hdrs, "nums": nums,
-        "cached": [dump.cached_block_filter_hashes.0, dump.cached_block_filter_hashes.1.iter().map(|h| maps.fid(h)).collect::<Vec<_>>()],
-        "pf": Value::Object(pf),
-        "fetchH": fetch(&dump.fetching_headers, false), "fetchT": fetch(&dump.fetching_txs, true),
-        "meta": meta_keys,
-    })
+    st.insert("mmem".into(), mmem);
+    st.insert("cached".into(), json!([dump.cached_block_filter_hashes.0, dump.cached_block_filter_hashes.1.iter().map(|h| maps.fid(h)).collect::<Vec<_>>()]));
+    st.insert("pf".into(), Value::Object(pf));
+    st.insert("fetchH".into(), json!(fetch(&dump.fetching_headers, false)));
+    st.insert("fetchT".into(), json!(fetch(&dump.fetching_txs, true)));
+    Value::Object(st)
 }
 
 /// C10: what the hostile-message trace specification looks at -- the stored tip and the peers' state names.
